@@ -15,6 +15,15 @@ CHECKS = {
             "Generated commit/merge/delete histories and query trees; every query is evaluated through ten access paths on the real index and compared, in both directions, with a reference evaluator over the document model and with each other. Sampling of an unbounded space: small corpora (<=60 docs), depth<=4 trees.",
             "Trusts wv/refquery.py as the documented meaning; FuzzyTerm checked as an interval (variant of edit distance decided in C19); Regex = re.match.",
             "DESIGN.md section 2 C01"),
+    "C02": ("fault_enumeration",
+            "fault injection enumerated over every storage-operation boundary of Hypothesis-generated writer transactions (storage wrapper numbering create/write/flush/close/rename/delete/lock operations; survivors materialised at each boundary in 4 on-disk prefix modes and cross-checked against real forked-child os._exit deaths), old-or-new dump oracle plus next-commit and orphan-file oracle",
+            "crash: a generated committed base (0-99 single-document commits + 0-3 generated transactions) and one generated transaction (adds, updates, deletes, add/remove field, "
+            "merge=False/default/optimize/CLEAR, compound/loose, commit or cancel) are run through a counting FileStorage subclass. At every boundary k the directory a process death "
+            "would leave is materialised (as is; open files fully flushed; truncated to 0; cut to half) and must open, equal exactly the old or the new logical state, accept a new "
+            "writer with timeout=0 whose commit yields state+1 document and leaves no segment/TOC file outside the current TOC. Every 16th boundary and every boundary from the TOC's "
+            "creation on is additionally produced by a forked child that re-runs the transaction and dies with os._exit(137) there.",
+            "Power-loss semantics (unsynced page cache, reordered metadata) are outside the statement ('the writing process dies') and not modelled. Exhaustive over boundaries per generated transaction, not over transactions. Byte-identical survivors are judged once (the oracle is a function of the directory content).",
+            "DESIGN.md section 2 C02"),
     "C05": ("exploration",
             "property-based testing (Hypothesis): differential search(limit=k) vs prefix of search(limit=None) on generated multi-block corpora, with engagement of block skipping measured",
             "Generated corpora with long posting lists (block limit 1-8, 1-4 segments, deletions), generated scored query trees and weighting models; for k in {1,2,3,5,10,|hits|-1} "
